@@ -215,7 +215,7 @@ int main(int argc, char **argv) {
     sim::Json w = sim::Json::O();
     simdisk::Ctl &c = simdisk::ctl();
     w.set("opens", sim::Json::I(c.opens)); w.set("open_fails", sim::Json::I(c.openFails)); w.set("reads", sim::Json::I(c.reads));
-    w.set("read_eio", sim::Json::I(c.readFaults)); w.set("short_reads", sim::Json::I(c.shortReads)); w.set("read_eintr", sim::Json::I(c.eintrs));
+    w.set("read_eio", sim::Json::I(c.readFaults)); w.set("short_reads", sim::Json::I(c.shortReads)); w.set("read_eintr", sim::Json::I(c.eintrs)); w.set("seeks_refused", sim::Json::I(c.seeksRefused)); w.set("write_enospc", sim::Json::I(c.writeFaults));
     w.set("writes", sim::Json::I(c.writes)); w.set("writevs", sim::Json::I(c.writevs)); w.set("bytes_written", sim::Json::I(c.bytesWritten));
     s.set("wrapstats", w);
     printf("%s\n", s.str().c_str());
